@@ -213,6 +213,121 @@ class ClassInfo(object):
     return '<class %s>' % self.qualname
 
 
+def _is_literal(e):
+  if isinstance(e, ast.Constant):
+    return True
+  if isinstance(e, ast.UnaryOp) and isinstance(e.op, (ast.USub, ast.UAdd)) \
+      and isinstance(e.operand, ast.Constant):
+    return True
+  return False
+
+
+_FLIP = {ast.Lt: ast.Gt, ast.Gt: ast.Lt, ast.LtE: ast.GtE, ast.GtE: ast.LtE,
+         ast.Eq: ast.Eq, ast.NotEq: ast.NotEq}
+
+
+def canonicalise(tree):
+  """Behaviour-preserving normal form applied to every module before any rule
+  reads it, so that no rule depends on the spelling: keyword arguments of a
+  call are ordered by name, and a comparison with a literal on the left
+  (`0 == x`, `1 < n`) is turned round (`x == 0`, `n > 1`); for == / != between
+  two non-literals the operands are ordered by their text.  Positions are
+  kept."""
+  _NEG = {ast.Eq: ast.NotEq, ast.NotEq: ast.Eq, ast.Is: ast.IsNot,
+          ast.IsNot: ast.Is, ast.In: ast.NotIn, ast.NotIn: ast.In,
+          ast.Lt: ast.GtE, ast.GtE: ast.Lt, ast.Gt: ast.LtE, ast.LtE: ast.Gt}
+
+  def strip_not(t):
+    """(positive test, negated?) with `not <compare>` folded into the
+    comparison operator"""
+    neg = False
+    while isinstance(t, ast.UnaryOp) and isinstance(t.op, ast.Not):
+      t = t.operand
+      neg = not neg
+    if neg and isinstance(t, ast.Compare) and len(t.ops) == 1 and type(
+        t.ops[0]) in _NEG:
+      t.ops = [_NEG[type(t.ops[0])]()]
+      neg = False
+    return t, neg
+
+  class _Polarity(ast.NodeTransformer):
+    """`if not c: A else: B` -> `if c: B else: A` (two-armed ifs that are
+    not elif chains), `a if not c else b` -> `b if c else a`, and
+    `not x == y` -> `x != y` everywhere."""
+
+    def visit_UnaryOp(self, n):
+      self.generic_visit(n)
+      if isinstance(n.op, ast.Not):
+        t, neg = strip_not(n)
+        if not neg:
+          return ast.copy_location(t, n)
+        if t is not n.operand:
+          n.operand = t
+      return n
+
+    @staticmethod
+    def _peel(t):
+      neg = False
+      while isinstance(t, ast.UnaryOp) and isinstance(t.op, ast.Not):
+        t = t.operand
+        neg = not neg
+      return t, neg
+
+    def visit_If(self, n):
+      # the arms are swapped BEFORE negations are folded into comparison
+      # operators, so that `if not x in s: A else: B` and
+      # `if x in s: B else: A` get the same normal form
+      if n.orelse and not (len(n.orelse) == 1 and isinstance(
+          n.orelse[0], ast.If)):
+        t, neg = self._peel(n.test)
+        if neg:
+          n.test = t
+          n.body, n.orelse = n.orelse, n.body
+      self.generic_visit(n)
+      return n
+
+    def visit_IfExp(self, n):
+      t, neg = self._peel(n.test)
+      if neg:
+        n.test = t
+        n.body, n.orelse = n.orelse, n.body
+      self.generic_visit(n)
+      return n
+
+  tree = _Polarity().visit(tree)
+  for n in ast.walk(tree):
+    if isinstance(n, ast.Call) and len(n.keywords) > 1 and all(
+        k.arg is not None for k in n.keywords):
+      n.keywords.sort(key=lambda k: k.arg)
+    elif isinstance(n, ast.Compare) and len(n.ops) == 1 and type(
+        n.ops[0]) in _FLIP:
+      l, r = n.left, n.comparators[0]
+      swap = False
+      if _is_literal(l) and not _is_literal(r):
+        swap = True
+      elif isinstance(n.ops[0], (ast.Eq, ast.NotEq)) and not _is_literal(l) \
+          and not _is_literal(r):
+        # enum-like constants (bct.NONE) on the right; otherwise the simpler
+        # operand (name < attribute < subscript < call < anything else) on
+        # the left, ties keep the source order
+        def rank(e):
+          t = ast.unparse(e)
+          if isinstance(e, (ast.Name, ast.Attribute)) and t.split('.')[
+              -1].isupper():
+            return 9
+          for i, k in enumerate((ast.Name, ast.Attribute, ast.Subscript,
+                                 ast.Call)):
+            if isinstance(e, k):
+              return i
+          return 5
+        if rank(l) > rank(r):
+          swap = True
+      if swap:
+        n.left, n.comparators = r, [l]
+        n.ops = [_FLIP[type(n.ops[0])]()]
+  return tree
+
+
 class Module(object):
 
   def __init__(self, name, path, relpath, src):
@@ -220,7 +335,7 @@ class Module(object):
     self.path = path
     self.relpath = relpath
     self.src = src
-    self.tree = ast.parse(src, filename=path)
+    self.tree = canonicalise(ast.parse(src, filename=path))
     self.aliases = {}     # local name -> ('mod', name) | ('ext', root) | ('sym', mod, name)
     self.functions = {}
     self.classes = {}
